@@ -800,9 +800,25 @@ impl<'a> Gen<'a> {
     }
 
     fn sig_ty(&mut self, m: usize) -> Ty {
-        match self.rng.below(3) {
-            0 => self.prim(),
-            1 => self.pointer_ty(m),
+        match self.rng.below(7) {
+            0 | 1 => self.prim(),
+            2 | 3 => self.pointer_ty(m),
+            // Arrays in signatures, nested with different lengths, around and behind pointers.
+            4 => {
+                let inner = if self.rng.chance(1, 2) {
+                    self.prim()
+                } else {
+                    self.pointer_ty(m)
+                };
+                let a = self.rng.range(1, 4);
+                let b = self.rng.range(1, 6);
+                match self.rng.below(4) {
+                    0 => inner.arr(a),
+                    1 => inner.arr(a).arr(b),
+                    2 => inner.arr(a).cptr().arr(b),
+                    _ => inner.arr(a).arr(b).mptr(),
+                }
+            }
             _ => {
                 let total = self.p.items.len();
                 let c = self.visible(m, total, |_| true);
